@@ -69,10 +69,10 @@ CLAIMS = {
         note="Not modelled: execute_filter's control flow around the buffers, parallel input filters' token handling, end-of-input and cancellation paths (oracle runs only).",
         ref="4/C07"),
     "C04": dict(
-        technique="Coq: executable small-step model of the bind/propagate protocol with both mutex disciplines; refutation theorem (explicit interleaving) for the code as found; exhaustive evaluation of all interleavings of small configurations for the repaired protocol; real-thread directed replay of the witness",
+        technique="Coq: executable small-step model of the bind/propagate protocol with both mutex disciplines; refutation theorem (explicit interleaving) for the code as found; sound exhaustive exploration (checked closed state sets, Lib/Explore.v, soundness lemma proved) of ALL interleavings of four scenarios for the repaired protocol, and a theorem that the same exploration fails for the protocol as found; real-thread directed replay of the witness",
         text="The model refutes 'every bound descendant is cancelled' for the two-mutex protocol with an explicit schedule (theorem), which the check replays on the real library with a widened race window "
-             "(defect found, repaired by fix: commit 27dc20e). For the repaired protocol every interleaving of the listed small configurations (up to 4 contexts, 3 threads) is shown inside Coq to reach "
-             "quiescence with all bound descendants cancelled and nothing else cancelled.",
+             "(defect found, repaired by fix: commit 27dc20e). For the repaired protocol every interleaving of the listed small configurations (up to 4 contexts, 3 threads) is shown inside Coq (theorem cancel_reaches_descendants_all_interleavings over every reachable configuration, not a schedule prefix) to keep: "
+             "once quiescent, all bound descendants of a cancelled context are cancelled and nothing else is.",
         note="PARTIAL: the general (unbounded) theorem for the repaired protocol, one-winner and no-spurious for arbitrary trees are not yet proved; the model is hand-written at lock-block granularity and is tied "
              "to the code only through the directed replay and random real-thread runs, not step by step. SC only.",
         ref="4/C04, 8(a)"),
@@ -183,11 +183,11 @@ CLAIMS = {
              "lifetime are exercised by the oracle runs only.",
         ref="4/C20"),
     "C19": dict(
-        technique="Coq: executable small-step model of the once-flag word protocol; exhaustive evaluation of all interleavings of small configurations inside Coq (finite theorems); real-thread oracle runs for call_once and thread-specific storage",
+        technique="Coq: executable small-step model of the once-flag word protocol; exhaustive exploration of ALL interleavings of five configurations inside Coq with a proved soundness lemma (checked closed sets, Lib/Explore.v); real-thread oracle runs for call_once and thread-specific storage",
         text="For 2 and 3 callers (with and without a throwing first attempt) every interleaving prefix, completed to quiescence, is shown inside Coq to give exactly one successful execution, every caller returning "
              "(the throwing attempt's caller with the exception), final state done, and no helper touching a destroyed runner. Real threads: one success, no overlapping executions, return only after completion, "
              "exceptions delivered to the right callers; enumerable_thread_specific/combinable: one element per thread, stable addresses, one initialiser call, iteration/combine exactly once (2-130 threads across table doublings).",
-        note="PARTIAL: the unbounded invariant (OInv) is stated but not proved; results are bounded (model checking inside Coq) + oracle runs. The model is not tied step by step to the code; "
+        note="PARTIAL: exhaustive per configuration (2-3 callers, with and without throwing attempts), no proof for arbitrary numbers of callers (OInv stated, not proved). The model is not tied step by step to the code; "
              "the thread-specific-storage table is not modelled.",
         ref="4/C19"),
 }
